@@ -348,12 +348,17 @@ fn c05_log2_bits_all_small_widths() {
         }
         l
     }
-    let n: usize = kani::any();
-    kani::assume((n >= 1 && n <= 8) || n == 13 || n == 15);
-    let x = BoxedUint::zero_with_precision(64 * n as u32);
-    assert!(x.nlimbs() == n && BitOps::log2_bits(&x) == want(64 * n as u32));
-    assert!(BitOps::bits_precision(&x) == 64 * n as u32 && BitOps::bytes_precision(&x) == 8 * n);
-    core::mem::forget(x);
+    // concrete limb counts (a symbolic allocation size makes counterexample generation run out of memory)
+    let ns: [usize; 10] = [1, 2, 3, 4, 5, 6, 7, 8, 13, 15];
+    let mut k = 0;
+    while k < 10 {
+        let n = ns[k];
+        let x = BoxedUint::zero_with_precision(64 * n as u32);
+        assert!(x.nlimbs() == n && BitOps::log2_bits(&x) == want(64 * n as u32));
+        assert!(BitOps::bits_precision(&x) == 64 * n as u32 && BitOps::bytes_precision(&x) == 8 * n);
+        core::mem::forget(x);
+        k += 1;
+    }
     assert!(BitOps::log2_bits(&Uint::<1>::ZERO) == 6 && BitOps::log2_bits(&Uint::<2>::ZERO) == 7 && BitOps::log2_bits(&Uint::<3>::ZERO) == 7);
     assert!(BitOps::log2_bits(&Uint::<5>::ZERO) == 8 && BitOps::log2_bits(&Uint::<6>::ZERO) == 8 && BitOps::log2_bits(&Uint::<7>::ZERO) == 8);
 }
